@@ -27,6 +27,11 @@ Grammar (line oriented; '#' starts a comment at line start; '<<<' ... '>>>' deli
     selfstub                self calls of target go to TARGET__self (replaced by contract)
     harness <<< C >>>       statements before the call (parameters are in scope by their names)
     unwindset L:N ...
+    switch-slice FN K I N   print switch K (source order) of FN keeping only the arm groups g with g mod N == I; the other
+                            arms become assume(0).  Use with 'foreach I in 0 .. N-1': together the slices cover every arm.
+    pre-unwind FN K N       unwind loop K (source order) of function FN N times with unwinding assertion BEFORE contract
+                            instrumentation (complete when the assertion holds; needed because cbmc 6.11 dfcc mishandles
+                            a loop with a contract nested in a loop without one)
     flags ...               extra cbmc flags
     object-bits N
     timeout SECONDS
@@ -51,7 +56,7 @@ class Query:
         self.replace = []; self.selfstub = False; self.harness = ''; self.unwindset = []
         self.flags = []; self.object_bits = None; self.timeout = None; self.expect_unreachable = False
         self.kind = 'proof'; self.unit = None; self.vars = {}; self.args = None; self.entry = None
-        self.no_enforce = False; self.note = ''
+        self.no_enforce = False; self.note = ''; self.pre_unwind = []; self.switch_slice = []
 
 class UnitSpec:
     def __init__(self, name):
@@ -136,6 +141,10 @@ def parse_file(path):
                 elif key == 'selfstub': cur.selfstub = True
                 elif key == 'harness': cur.harness += raw_block(rest.split('<<<', 1)[1]) + '\n'
                 elif key == 'unwindset': cur.unwindset += rest.split()
+                elif key == 'switch-slice':
+                    sfn, sk, si, sn = rest.split(); cur.switch_slice.append((sfn, int(sk), si, int(sn)))
+                elif key == 'pre-unwind':
+                    pfn, pk, pn = rest.split(); cur.pre_unwind.append((pfn, int(pk), int(pn)))
                 elif key == 'flags': cur.flags += rest.split()
                 elif key == 'object-bits': cur.object_bits = int(rest)
                 elif key == 'timeout': cur.timeout = int(rest)
